@@ -503,7 +503,7 @@ CONTROLS = [
     ("batch transposed by position", EF, M.replace_expr("Batch.filter", "list(map(itemgetter(key), batch))", "list(list(zip(*[i.values() for i in batch]))[list(first).index(key)])"), "C10.R9"),
     ("DiscreteReward rewards taken over by position unconditionally", EF, M.replace_expr("Repr.filter", "isinstance(old[target], DiscreteReward) and old[target].actions == old['actions']", "isinstance(old[target], DiscreteReward)"), "C10.R1"),
     ("Densify re-represents the logged action under the context switch", EF, M.replace_expr("Densify.filter", "self._action and 'action' in new", "self._context and 'action' in new"), "C10.R3"),
-    ("catset rewrites the nested action in place", "coba/pipes/rows.py", M.replace_expr("EncodeCatRows._encode_collection", "list(row) if isinstance(row, tuple) else copy(row)", "list(row) if isinstance(row, tuple) else row", nth=0), "C10.R8"),
+    ("catset rewrites the nested action in place", "coba/pipes/rows.py", M.replace_expr("EncodeCatRows._encode_collection", "mutable(o[k])", "o[k]"), "C10.R8"),
     ("Environments.dense shares one Densify", CORE, M.replace_expr("Environments.dense", "Environments([Pipes.join(env, make_dense()) for env in self._envs])", "self.filter(make_dense())"), "C10.R5"),
     ("Repr cuts by the first row's length", EF, M.replace_expr("Repr.filter", "islice(actionitr, len(row))", "islice(actionitr, len(first['actions']))"), "C10.R6"),
     ("Repr memo keyed by the first action only", EF, M.replace_expr("Repr.filter", "row != prev_row", "prev_row is None or row[0] != prev_row[0]"), "C10.R7"),
